@@ -131,6 +131,7 @@ class Builder:
                  on_add=None, mode_form_p=0.06):
         self.on_add = on_add
         self.mode_form_p = mode_form_p   # how often a mode number is handed over as numpy integer / integral float
+        self.value_form_p = 0.03         # how often a reflectivity / phase / loss is handed over as numpy float16/32/64
         self._forms: list = []
         self.last = None            # description of the API call being attempted
         self.children: list = []    # (child circuit, its log) of every circuit that was added to a parent
@@ -156,6 +157,15 @@ class Builder:
 
     # -- values, possibly wrapped in Parameters
     def _maybe_param(self, v, lo=None, hi=None):
+        if isinstance(v, float) and self.rng.random() < self.value_form_p:
+            # the same number carried by a narrower / other numpy float type (the value is exactly representable there,
+            # so the documented matrix is unchanged: only the carrier differs)
+            ty = [np.float32, np.float16, np.float64][int(self.rng.integers(3))]
+            with np.errstate(over="ignore"):
+                w = ty(v)
+            if np.isfinite(w):             # (a huge phase does not fit a float16: it stays a Python float)
+                v = ty(float(w))
+                self._forms.append("value as " + ty.__name__)
         if self.rng.random() < self.param_p:
             p = self.lw.Parameter(v)
             self.params.append(p)
